@@ -565,6 +565,14 @@ def find_witness(prop, v, repo, log):
             return {'witness': None, 'search': 'SmallMap scenarios (sizes 0..40 across the index threshold; remove by key/index at every position, clear+reuse, pop, reverse, retain, sort) vs a list model: ' + o}
         return {'witness': {'real_library': o + (' ' + loc[0] if loc else ''), 'oracle': 'list-of-pairs model'},
                 'search': 'SmallMap scenarios (sizes 0..40 across the index threshold) vs a list model'}
+    if 'C05.lex.fstring' in oid or 'track_fstring' in fn:
+        exprs = ['f"{)}"', 'f"{a]}"', 'f"{a[0]]}"', "f\'\'\'{ (a)) }\'\'\'", '(f"{x)}"', 'f"{(a)}"', 'f"{[a][0]}"', 'f"{((a)}"']
+        outs = eval_many(exprs, log)
+        for e, o in zip(exprs, outs):
+            if o == 'PANIC':
+                return {'witness': {'expression': e, 'real_library': o, 'expected': 'a value or a located error'}, 'grid_points': len(exprs),
+                        'search': 'f-strings whose replacement field has unmatched / matched round and square brackets'}
+        return {'witness': None, 'grid_points': len(exprs), 'search': 'f-strings whose replacement field has unmatched / matched round and square brackets'}
     if 'C05.span.' in oid or (prop == 'C05' and 'ParserRd' in fn):
         r = span_grid_search(log)
         r['search'] = 'sources covering every node builder of unit spans (parameters with types and defaults, lambda, conditional, unary, def / for / if, index / slice, return, lists and comprehensions): span containment checked on the parsed tree of the real library'
